@@ -6,7 +6,10 @@
     [prop_source_roundtrip] uses, Corr/RunC05.v [expected_of]), and the one condition on source
     definitions the statement needs beyond those of [C05_skeleton_is_source]: the fields of one
     struct / variant are all named or all unnamed ([names_uniformb]; true of every Rust
-    definition, the type [sbody] is wider).  Definitions only; proofs in Proofs/SourceEmission.v. *)
+    definition, the type [sbody] is wider).  Further: which bit orders a definition mentions
+    ([def_mentions_order]), the model's output read back as the checker reads the observed one
+    ([model_item_at]) and two example programs (ex8, ex9).
+    Definitions only; proofs in Proofs/SourceEmission.v. *)
 From Coq Require Import List NArith String Bool.
 From V Require Import Base.Util Base.Strings Base.Result Model.Registry Model.Settings Model.TypePath
   Model.Generate Model.Emit Model.Equal Model.Program Model.ProgramSkel Model.ProgramExamples
